@@ -2,6 +2,7 @@
 From Coq Require Import List NArith ZArith Bool.
 Import ListNotations.
 From Mos Require Import model.Output spec.Layout proofs.OutputProofs.
+From Mos Require model.Encode model.Segment proofs.OutputRange.
 Open Scope Z_scope.
 
 (* A bank's image: spans min start .. max end of its segments; the byte at every address is the data of the
@@ -83,6 +84,19 @@ Theorem C09_build_project_refines_spec : forall default_name configured banks se
   end.
 Proof. exact build_project_refines. Qed.
 Print Assumptions C09_build_project_refines_spec.
+
+(* Data outside $0000-$FFFF is an error, never a truncated or shifted image: Segment::emit (model/Segment.v, limits
+   translated from segment.rs) refuses exactly the writes that start above $FFFF or end above $10000, and an accepted
+   write is recorded at its own address with all its bytes. *)
+Theorem C09_data_outside_64k_is_error : forall (s : Segment.segment) (bytes : list N),
+  let e := Segment.g_pc s + Z.of_nat (length bytes) in
+  e < Encode.two64 ->
+  (Segment.seg_emit s bytes = Segment.EmitOutOfRange <-> (65535 < Segment.g_pc s \/ 65536 < e)) /\
+  (forall s', Segment.seg_emit s bytes = Segment.EmitOk s' ->
+     Segment.g_pc s <= 65535 /\ e <= 65536 /\ Segment.g_pc s' = e /\
+     Segment.g_writes s' = (Segment.g_pc s, bytes) :: Segment.g_writes s).
+Proof. exact OutputRange.emit_range_exact. Qed.
+Print Assumptions C09_data_outside_64k_is_error.
 
 (* non-vacuity: two overlapping segments, the later one wins, gap filled *)
 Example C09_example :
